@@ -18,6 +18,8 @@ use crate::constant::qlpc::MAX_ORDER as MAX_LPC_ORDER;
 use crate::constant::qlpc::MAX_PRECISION as MAX_LPC_PRECISION;
 use crate::constant::qlpc::MAX_SHIFT as MAX_LPC_SHIFT;
 use crate::constant::qlpc::MIN_SHIFT as MIN_LPC_SHIFT;
+use crate::constant::rice::MAX_PARTITION_ORDER;
+use crate::constant::rice::MAX_RICE_PARAMETER;
 use crate::constant::MAX_CHANNELS;
 use crate::error::verify_range;
 use crate::error::verify_true;
@@ -43,7 +45,7 @@ use super::datatype::Verbatim;
 // Some (internal) utility macros for value verification.
 macro_rules! verify_block_size {
     ($varname:literal, $size:expr) => {
-        verify_range!($varname, $size, ..=(crate::constant::MAX_BLOCK_SIZE))
+        verify_range!($varname, $size, 1..=(crate::constant::MAX_BLOCK_SIZE))
     };
 }
 pub(crate) use verify_block_size;
@@ -236,6 +238,11 @@ impl Verify for FixedLpc {
         for (t, v) in self.warm_up().iter().enumerate() {
             verify_sample_range!("warm_up[{t}]", *v, self.bits_per_sample())?;
         }
+        verify_true!(
+            "warm_up.len",
+            self.warm_up().len() == self.residual().warmup_length(),
+            "must be the same as the warm-up length of `residual`"
+        )?;
         self.residual()
             .verify()
             .map_err(|err| err.within("residual"))
@@ -251,6 +258,17 @@ impl Verify for Lpc {
         for (t, v) in self.warm_up().iter().enumerate() {
             verify_sample_range!("warm_up[{t}]", *v, self.bits_per_sample())?;
         }
+        verify_range!("parameters.order", self.parameters().order(), 1..)?;
+        verify_true!(
+            "warm_up.len",
+            self.warm_up().len() == self.parameters().order(),
+            "must be the same as the order of `parameters`"
+        )?;
+        verify_true!(
+            "warm_up.len",
+            self.warm_up().len() == self.residual().warmup_length(),
+            "must be the same as the warm-up length of `residual`"
+        )?;
         self.residual()
             .verify()
             .map_err(|err| err.within("residual"))
@@ -261,7 +279,12 @@ impl Verify for QuantizedParameters {
     fn verify(&self) -> Result<(), VerifyError> {
         verify_range!("order", self.order(), ..=MAX_LPC_ORDER)?;
         verify_range!("shift", self.shift(), MIN_LPC_SHIFT..=MAX_LPC_SHIFT)?;
-        verify_range!("precision", self.precision(), ..=MAX_LPC_PRECISION)?;
+        verify_range!("precision", self.precision(), 1..=MAX_LPC_PRECISION)?;
+        let max_coef = (1i32 << (self.precision() - 1)) - 1;
+        let min_coef = -(1i32 << (self.precision() - 1));
+        for (i, c) in self.coefs().iter().enumerate() {
+            verify_range!("coefs[{i}]", i32::from(*c), min_coef..=max_coef)?;
+        }
         Ok(())
     }
 }
@@ -285,6 +308,30 @@ impl Verify for Residual {
             self.remainders().len() == self.block_size(),
             "must have the same length as the block size"
         )?;
+        verify_range!(
+            "partition_order",
+            self.partition_order(),
+            ..=MAX_PARTITION_ORDER
+        )?;
+        let partition_count = 1usize << self.partition_order();
+        verify_true!(
+            "rice_params.len",
+            self.rice_params().len() == partition_count,
+            "must be the same as the number of partitions"
+        )?;
+        verify_true!(
+            "block_size",
+            self.block_size() % partition_count == 0,
+            "must be a multiple of the number of partitions"
+        )?;
+        verify_range!(
+            "warmup_length",
+            self.warmup_length(),
+            ..=(self.block_size() / partition_count)
+        )?;
+        for (p, rice_p) in self.rice_params().iter().enumerate() {
+            verify_range!("rice_params[{p}]", *rice_p as usize, ..=MAX_RICE_PARAMETER)?;
+        }
         for t in 0..self.warmup_length() {
             verify_true!(
                 "quotients[{t}]",
@@ -298,7 +345,6 @@ impl Verify for Residual {
             )?;
         }
 
-        let partition_count = 1 << self.partition_order();
         let partition_len = self.block_size() / partition_count;
         for t in 0..self.block_size() {
             let rice_p = self.rice_params()[t / partition_len];
